@@ -226,8 +226,17 @@ class A2:
     def feasible(self, b, path, edges):
         """prune paths that require a one-bit tag to be neither 0 nor 1 (or both)"""
         seen = {}
+        from .flow import expand_classifiers, one_bit_twins
+        expanded = []
         for (s, d) in zip(path, path[1:]):
-            r = edges.get((s, d))
+            r0 = edges.get((s, d))
+            if r0 is None:
+                continue
+            key = ("xrel", s, d)
+            if key not in b._cache:
+                b._cache[key] = one_bit_twins(expand_classifiers(b, self.facts, [r0]))
+            expanded.extend(b._cache[key])
+        for r in expanded:
             if r is not None and r[0] == "notin":
                 # `match x & 1 { 0 => .., 1 => .., _ => .. }`: the fall-through arm cannot be taken
                 x = canon(r[1])
